@@ -76,6 +76,8 @@ type Contract struct {
 	Skip      map[string]bool // obligation kinds not generated (stated in evidence)
 	MayPanic  bool
 	Asserts   []AssertAt
+	Alloc     *Clause  // upper bound (in elements) on every allocation the function makes whose size is not constant
+	UseInst   []Clause // explicit lemma instances: lemma(args...) over the function's parameters
 }
 
 // AssertAt: a proof-decomposition assertion checked (and then assumed) right
@@ -307,6 +309,17 @@ func (lib *SpecLib) loadFile(path, prefix string) error {
 			}
 			cur = c
 		case "uses":
+			if cur != nil && strings.Contains(rest, "(") {
+				c, err := clause(rest)
+				if err != nil {
+					return bad(err)
+				}
+				cur.UseInst = append(cur.UseInst, c)
+				if call, ok := c.E.(*ECall); ok {
+					cur.Uses = append(cur.Uses, call.Fun)
+				}
+				continue
+			}
 			names := strings.FieldsFunc(rest, func(r rune) bool { return r == ',' || r == ' ' })
 			if curLemma != nil {
 				curLemma.Uses = append(curLemma.Uses, names...)
@@ -379,6 +392,12 @@ func (lib *SpecLib) loadFile(path, prefix string) error {
 					return bad(err)
 				}
 				cur.Asserts = append(cur.Asserts, AssertAt{Callee: loc, Ord: ord, C: c})
+			case "alloc":
+				c, err := clause(rest)
+				if err != nil {
+					return bad(err)
+				}
+				cur.Alloc = &c
 			case "inline":
 				cur.Inline = true
 			case "trusted":
